@@ -214,7 +214,7 @@ def report(prop, tier, seed, hs, results, wall):
         if r["obligations"] == 0 and not r["violations"] and not REG[hid].sentinel:
             problems.append("%s %s: vacuous (no obligation reached)" % (hid, _short(r["params"])))
         for s in r["samples"][:1]:
-            if len(samples) < 12:
+            if sum(1 for x in samples if x["harness"] == hid) < 2:
                 samples.append(dict(harness=hid, params=_pub(r["params"]), **s))
         for v in r["violations"]:
             ph["violations"] += 1
@@ -260,7 +260,9 @@ def report(prop, tier, seed, hs, results, wall):
                   "symbolic values; every path has a distinct decision trace). Non-trivial = the path was feasible, "
                   "ran the code under test to completion and reached at least one solver obligation; aborted "
                   "(infeasible) and cut paths are not counted."),
-            samples=samples,
+            samples=samples[:16],
+            paths_symbolic_harnesses=sum(d["paths"] for hid, d in per_h.items() if not REG[hid].sentinel),
+            paths_concrete_sentinels=sum(d["paths"] for hid, d in per_h.items() if REG[hid].sentinel),
             exhaustive=bool(exhaustive and not problems),
             obligations=tot["obligations"], discharged=tot["discharged"],
             solver_queries=tot["queries"], solver_s=round(tot["solver_s"], 3), solver_unknowns=tot["unknowns"],
